@@ -15,7 +15,8 @@ ROOT = os.path.dirname(os.path.dirname(os.path.abspath(__file__)))
 SPEC = os.path.join(ROOT, "spec")
 HARNESS = os.path.join(ROOT, "harness")
 WORK = os.path.join(ROOT, "work")
-BIN = os.path.join(HARNESS, "target", "debug")
+# (VERIF_BIN: an already built, e.g. coverage-instrumented, harness - used by tools/coverage.sh only)
+BIN = os.environ.get("VERIF_BIN") or os.path.join(HARNESS, "target", "debug")
 # per-process scratch area (tmpfs): concurrent checks never share fixed sub-directory names
 SCRATCH_BASE = os.environ.get("VERIF_SCRATCH", "/dev/shm/verif-scratch")
 SCRATCH = os.path.join(SCRATCH_BASE, f"run-{os.getpid()}")
@@ -72,6 +73,8 @@ def cargo_build(ctx, extra=()):
     """Builds the harness against /repo's current working tree (path dependencies)."""
     env = dict(os.environ, CARGO_NET_OFFLINE="true")
     t = time.time()
+    if os.environ.get("VERIF_BIN"):
+        return
     p = subprocess.run(["cargo", "build", "--offline", *extra], cwd=HARNESS, env=env,
                        stdout=subprocess.PIPE, stderr=subprocess.STDOUT, text=True)
     if p.returncode != 0:
